@@ -162,11 +162,11 @@ Proof.
   { intros H; inversion H; subst; clear H. unfold nu, Lb, cl9 in *. rsimpl. lia. }
   apply rd_full_ok in Er. destruct Er as [Ed [Eb _]].
   assert (Hd : (length data <= length (r_buf cr))%nat) by (rewrite Eb, app_length; lia).
-  set (sb := if bytes_eqb comp _ then set lx_chunk _ _ else _).
+  set (sb := if drains_chunk comp then set lx_chunk _ _ else _).
   assert (Gsb : Lb sb = Lb s /\ (cl9 sb <= S (length (r_buf cr) / 9))%nat).
-  { subst sb. destruct (bytes_eqb comp _); unfold Lb, cl9 in *; rsimpl; cbn [length]; split; lia. }
+  { subst sb. destruct (drains_chunk comp); unfold Lb, cl9 in *; rsimpl; cbn [length]; split; lia. }
   destruct Gsb as [Gl2 Gc2]. clearbody sb.
-  destruct (if bytes_eqb comp _ then _ else None) as [x|].
+  destruct (if drains_chunk comp then _ else None) as [x|].
   { intros H; inversion H; subst; clear H. unfold nu. lia. }
   destruct ((0 <? ucrc) && negb (crc32 data =? ucrc)).
   { intros H; inversion H; subst; clear H. unfold nu. lia. }
